@@ -106,6 +106,20 @@ def selftest():
         assert len(ref) == len(naive)
 
 
+def dec_prio(p):
+    """Numeric priorities of other types, written ['dec', '1.5'] / ['frac', 3, 2] / ['bool', 1] in the histories."""
+    if isinstance(p, list):
+        if p[0] == 'dec':
+            import decimal
+            return decimal.Decimal(p[1])
+        if p[0] == 'frac':
+            import fractions
+            return fractions.Fraction(p[1], p[2])
+        if p[0] == 'bool':
+            return bool(p[1])
+    return p
+
+
 def dec_task(t):
     return tuple(t) if isinstance(t, list) else t
 
@@ -131,6 +145,10 @@ class Check(object):
         tasks = list(range(ntasks // 2)) + ['t%d' % i for i in range(ntasks - ntasks // 2 - 1)] + [[1, 'x']]
         pkey = r.choice(['default'] * 5 + ['exact-neg', 'deadline', 'fraction'])
         prios = PRIOS if pkey == 'default' else EXACT_PRIOS
+        if pkey == 'default' and r.random() < 0.25:
+            # Decimal, Fraction and bool priorities next to ints and floats (equal ones among them: ties)
+            prios = PRIOS + [['dec', '1'], ['dec', '2.0'], ['dec', '0.5'], ['frac', 1, 2], ['frac', 3, 1], ['bool', 1], ['bool', 0],
+                             ['dec', '-2.5'], ['frac', 7, 3]]
         # tasks that are falsy or None, and defaults that ARE such tasks
         dflt = r.choice(['DEFAULT', 'DEFAULT', None, 0, ''])
         if dflt != 'DEFAULT' or r.random() < 0.2:
@@ -170,8 +188,9 @@ class Check(object):
             name = op[0]
             if name == 'add':
                 t = dec_task(op[1])
-                args = (t,) if len(op) == 2 else (t, op[2])
-                want = outcome(lambda: ref.add(t, op[2] if len(op) > 2 else None))
+                prio = dec_prio(op[2]) if len(op) > 2 else None
+                args = (t,) if len(op) == 2 else (t, prio)
+                want = outcome(lambda: ref.add(t, prio))
                 fn = lambda q: q.add(*args)
             elif name == 'remove':
                 t = dec_task(op[1])
